@@ -7,7 +7,7 @@ versioned / ignored / recognised control dir / conflict helper / kind).
 
 Modelled code (as it is):
 * `breezy/bzr/inventorytree.py: _SmartAddHelper.add` (+ `_add_one_and_parent`,
-  `_gather_dirs_to_add`) with the default `AddAction` (`skip_file` = never)
+  `_gather_dirs_to_add`); `action.skip_file` is a parameter (`Cfg.skip`)
 * `breezy/git/workingtree.py: GitWorkingTree.smart_add`
 
 `smart_add` is one structural pass over the layout.  Phase 1 of the code
@@ -15,18 +15,26 @@ Modelled code (as it is):
 ignore rules say) does not depend on the walk, so the pass computes for every
 entry the flag after phase 1 (`onPath`) and then applies the walk rule of the
 mode it is reached in:
-  idle  outside every directory being scanned
+  idle  its parent directory is not being scanned
   walk  the parent directory is being scanned (its `os.listdir` loop runs)
-  dead  below a named, scanned directory, but the scan does not get here
-        (bzr only: `_gather_dirs_to_add` drops named directories inside another
-        named directory, so a named directory in a dead region is not scanned;
-        git scans every named directory)
+An entry is *visited* (taken from the work list) when its parent is scanned and
+lists it, or when it is a named directory that phase 1 scheduled:
+  git  every named directory is scheduled;
+  bzr  `_gather_dirs_to_add` walks the named directories in sorted order of
+       their path strings and drops one iff the named directory *just before it
+       in that order* is one of its ancestors (`prev_dir` is updated on every
+       iteration, also for dropped entries).  So `add a a/b a/c` schedules `a`
+       and `a/c`, and `add a a-x a/b` schedules all three.
+A directory reached twice (scheduled and listed by its parent's scan) is scanned
+twice by the code; the second scan finds everything versioned, so the result is
+that of one scan (the `added` list the call returns then has duplicates — not
+part of the property).
 -/
 namespace BreezyVerif.C11
 open BreezyVerif.C46
 
 inductive Mode where
-  | idle | walk | dead
+  | idle | walk
   deriving DecidableEq, Repr
 
 structure Cfg where
@@ -35,10 +43,23 @@ structure Cfg where
   names : List Path
   recurse : Bool
   /-- git only: does `smart_add` refuse an explicitly named path of the control
-  directory (the code as found does not — finding `git-tree-named-control-file`;
-  the harness probes the tree) -/
+  directory (the code as first found did not — finding `git-tree-named-control-file`,
+  repaired; the harness probes the tree) -/
   gitRefusesCtl : Bool := false
+  /-- the paths for which `action.skip_file(tree, abspath, kind, stat)` answers
+  `True` (`AddAction`: none; `AddWithSkipLargeAction`: regular files larger than
+  `add.maximum_file_size`; the predicate is a parameter evaluated by the real
+  action).  `_SmartAddHelper.add` consults it for every entry it takes from the
+  work list. -/
+  skip : List Path := []
+  /-- git only: does `GitWorkingTree.smart_add` call `action.skip_file` (the code
+  as found never does — finding `git-smart-add-ignores-skip-file`; the harness
+  probes the tree) -/
+  gitSkips : Bool := false
   deriving Repr
+
+/-- the walk asks the action before it does anything with an entry -/
+def consultsSkip (c : Cfg) : Bool := c.fmt == .bzr || c.gitSkips
 
 /-- phase 1: the entry at `p` is versioned because it was named (bzr: or is a
 parent of a named path; git: directories are not index entries) -/
@@ -50,6 +71,58 @@ def onPath (c : Cfg) (p : Path) (i : Info) : Bool :=
 /-- `ControlDirFormat.find_format(transport)` succeeds on a directory -/
 def isNestedTree (i : Info) (kids : Forest) : Bool := i.kind == .dir && hasCtl kids
 
+/-- `user_dirs`: the named paths that are directories on disk (`file_kind`, no
+link following); the tree root always is -/
+def userDirs (c : Cfg) (f : Forest) : List Path :=
+  c.names.filter fun n => n == [] || match f.get n with
+    | some (i, _) => i.kind == .dir
+    | none => false
+
+/-- order of `sorted(user_dirs)`: Python compares the `/`-joined strings by code point -/
+def pathLt (a b : Path) : Bool := decide (joinPath a < joinPath b)
+
+/-- the element of `ud` just before `p` in sorted order (duplicates collapse: `user_dirs` is a dict) -/
+def predOf (ud : List Path) (p : Path) : Option Path :=
+  ud.foldl (fun best n =>
+    if pathLt n p && (match best with | none => true | some b => pathLt b n) then some n else best) none
+
+/-- `_gather_dirs_to_add` yields the named directory `p` -/
+def gathered (ud : List Path) (p : Path) : Bool :=
+  ud.contains p && match predOf ud p with
+    | none => true
+    | some d => !d.isPrefixOf p
+
+/-- every entry below `p` on the way down to `n` (`n` included) exists and is unversioned -/
+def unversionedBelow (f : Forest) (p n : Path) : Bool :=
+  (List.range (n.length + 1)).all fun j =>
+    !(decide (p.length < j)) || match f.get (n.take j) with
+      | some (i, _) => !i.versioned
+      | none => false
+
+/-- phase 1 handles the names in the order given.  Adding an unversioned named path `n` looks up
+its nearest versioned ancestor and, if that entry's kind is not `directory`, converts it
+(`_convert_to_directory`).  `convBefore names f p`: this happened to `p` before `p` itself (its last
+occurrence — `user_dirs` is a dict) was handled: an earlier name lies strictly below `p` with only
+unversioned entries on the way. -/
+def convBefore (names : List Path) (f : Forest) (p : Path) : Bool :=
+  ((names.reverse.dropWhile (· != p)).drop 1).any fun n =>
+    p.isPrefixOf n && decide (p.length < n.length) && unversionedBelow f p n
+
+/-- what phase 1 hands to the walk: the named directories and the named paths converted on the way -/
+structure Pre where
+  ud : List Path
+  conv : List Path
+  deriving Repr
+
+def preOf (c : Cfg) (f : Forest) : Pre :=
+  { ud := userDirs c f, conv := c.names.filter (convBefore c.names f) }
+
+/-- phase 1 puts the named directory at `p` on the work list (`ud` = `userDirs`) -/
+def sched (c : Cfg) (ud : List Path) (p : Path) (i : Info) : Bool :=
+  c.recurse && match c.fmt with
+    | .bzr => gathered ud p
+    | .git => c.names.contains p && i.kind == .dir
+
 /-- the `os.listdir` loop of a scanned directory puts this child on the work
 list.  bzr: not the tree's control directory; versioned children always,
 unversioned ones unless ignored.  git: not the control directory, and never an
@@ -59,54 +132,54 @@ def listed (c : Cfg) (p : Path) (i : Info) (v1 : Bool) : Bool :=
   | .bzr => !(p.head? == some ".bzr") && (v1 || !i.ignored)
   | .git => !(p.head? == some ".git") && !i.ignored
 
-/-- the flag of an entry taken from the work list.  bzr: a conflict helper is
-skipped; an unversioned nested tree is skipped; anything else is versioned.
-git: directories are not index entries; a file is added unless it is in the
-index or a conflict helper. -/
-def visitFlag (c : Cfg) (i : Info) (kids : Forest) (v1 : Bool) : Bool :=
-  match c.fmt with
-  | .bzr => if i.helper then v1 else v1 || !isNestedTree i kids
-  | .git => if i.kind == .dir then v1 else v1 || !i.helper
+/-- a visited entry is passed over (`continue`) before anything is done with it:
+the action skips it, or (bzr) it is a conflict helper -/
+def passedOver (c : Cfg) (p : Path) (i : Info) : Bool :=
+  (consultsSkip c && c.skip.contains p) || (c.fmt == .bzr && i.helper)
 
-/-- is the content of an entry taken from the work list scanned -/
-def visitKids (c : Cfg) (i : Info) (kids : Forest) : Mode :=
+/-- the flag of a visited entry.  bzr: a skipped entry or conflict helper is
+passed over; an unversioned nested tree is not added; anything else is
+versioned.  git: directories are not index entries; a file is added unless it
+is in the index or a conflict helper. -/
+def visitFlag (c : Cfg) (p : Path) (i : Info) (kids : Forest) (v1 : Bool) : Bool :=
   match c.fmt with
-  | .bzr => if i.helper then .dead else if i.kind == .dir && !hasCtl kids then .walk else .dead
-  | .git => if i.kind == .dir && !hasCtl kids then .walk else .dead
+  | .bzr => if passedOver c p i then v1 else v1 || !isNestedTree i kids
+  | .git => if i.kind == .dir || passedOver c p i then v1 else v1 || !i.helper
 
-/-- a named directory is put on the work list by phase 1 (`user_dirs`; the test
-uses the kind on disk).  bzr: not if it lies in an already scanned / dead
-region (`_gather_dirs_to_add`). -/
-def startsWalk (c : Cfg) (p : Path) (i : Info) (m : Mode) : Bool :=
-  c.recurse && c.names.contains p && i.kind == .dir && (c.fmt == .git || m == .idle)
+/-- the content of a visited entry is scanned: a real directory that is not a
+nested tree and was not passed over -/
+def opens (c : Cfg) (p : Path) (i : Info) (kids : Forest) : Bool :=
+  i.kind == .dir && !hasCtl kids && !passedOver c p i
 
 /-- bzr: a scheduled named directory that was already *versioned* and holds a
 `.bzr` directory is reported by `_get_ie` with kind `tree-reference`
-(`_directory_may_be_tree_reference`): its visit does nothing and, being
-scheduled, it shadows named directories below it.  (Reached from its parent's
-scan the raw inventory kind `directory` is used instead.) -/
-def namedTreeRef (c : Cfg) (i : Info) (kids : Forest) : Bool :=
-  c.fmt == .bzr && i.versioned && kids.hasDir ".bzr"
+(`_directory_may_be_tree_reference`): its visit does nothing — unless phase 1
+converted the entry to a directory before it got to this name (`convBefore`).
+(Reached from its parent's scan the raw inventory kind `directory` is used instead.) -/
+def namedTreeRef (c : Cfg) (pre : Pre) (p : Path) (i : Info) (kids : Forest) : Bool :=
+  c.fmt == .bzr && i.versioned && kids.hasDir ".bzr" && !pre.conv.contains p
+
+/-- is the entry taken from the work list (by its parent's scan, or scheduled) -/
+def visited (c : Cfg) (pre : Pre) (p : Path) (m : Mode) (i : Info) (kids : Forest) (v1 : Bool) : Bool :=
+  (m == .walk && listed c p i v1) || (sched c pre.ud p i && !namedTreeRef c pre p i kids)
 
 /-- one entry: (versioned flag afterwards, mode of its content) -/
-def step (c : Cfg) (p : Path) (m : Mode) (i : Info) (kids : Forest) : Bool × Mode :=
+def step (c : Cfg) (pre : Pre) (p : Path) (m : Mode) (i : Info) (kids : Forest) : Bool × Mode :=
   let v1 := i.versioned || onPath c p i
-  if startsWalk c p i m then
-    (if namedTreeRef c i kids then (v1, .dead) else (visitFlag c i kids v1, visitKids c i kids))
-  else match m with
-    | .walk => if listed c p i v1 then (visitFlag c i kids v1, visitKids c i kids) else (v1, .dead)
-    | .idle => (v1, .idle)
-    | .dead => (v1, .dead)
+  if visited c pre p m i kids v1 then
+    (visitFlag c p i kids v1, if opens c p i kids then .walk else .idle)
+  else (v1, .idle)
 
 /-- the whole command on the content of the directory `here`, reached in mode `m` -/
-def pass (c : Cfg) (here : Path) (m : Mode) : Forest → Forest
+def pass (c : Cfg) (pre : Pre) (here : Path) (m : Mode) : Forest → Forest
   | .nil => .nil
   | .cons i kids rest =>
-    let s := step c (here ++ [i.name]) m i kids
-    .cons { i with versioned := s.1 } (pass c (here ++ [i.name]) s.2 kids) (pass c here m rest)
+    let s := step c pre (here ++ [i.name]) m i kids
+    .cons { i with versioned := s.1 } (pass c pre (here ++ [i.name]) s.2 kids) (pass c pre here m rest)
 
-/-- the tree root is scanned iff it was named and we recurse -/
-def rootMode (c : Cfg) : Mode := if c.recurse && c.names.contains [] then .walk else .idle
+/-- the tree root is scanned iff it was named, we recurse and (bzr) the action does not skip it -/
+def rootMode (c : Cfg) : Mode :=
+  if c.recurse && c.names.contains [] && !(consultsSkip c && c.skip.contains []) then .walk else .idle
 
 inductive Err where
   | forbiddenControlFile | noSuchFile
@@ -125,7 +198,7 @@ def checkNames (fmt : Fmt) (refuse : Bool) (f : Forest) : List Path → Option E
 def smartAdd (c : Cfg) (f : Forest) : Except Err Forest :=
   match checkNames c.fmt c.gitRefusesCtl f c.names with
   | some e => .error e
-  | none => .ok (pass c [] (rootMode c) f)
+  | none => .ok (pass c (preOf c f) [] (rootMode c) f)
 
 /-- versioned paths of a layout -/
 def versionedPaths : Forest → List Path
@@ -138,7 +211,7 @@ def versionedPaths : Forest → List Path
 /-- the mode in which the directory listing that contains the entry `q` is
 processed: the mode of the top listing handed down through `step` along the
 path (this is what `add_exact` relates the result to) -/
-def modeOf (c : Cfg) (here : Path) (m : Mode) : Forest → Path → Option Mode
+def modeOf (c : Cfg) (pre : Pre) (here : Path) (m : Mode) : Forest → Path → Option Mode
   | .nil, _ => none
   | .cons i kids rest, q =>
     match q with
@@ -147,12 +220,55 @@ def modeOf (c : Cfg) (here : Path) (m : Mode) : Forest → Path → Option Mode
       if i.name = n then
         (match t with
          | [] => some m
-         | _ :: _ => modeOf c (here ++ [i.name]) (step c (here ++ [i.name]) m i kids).2 kids t)
-      else modeOf c here m rest q
+         | _ :: _ => modeOf c pre (here ++ [i.name]) (step c pre (here ++ [i.name]) m i kids).2 kids t)
+      else modeOf c pre here m rest q
+
+/-! ### closed form of the walk (no recursion over the layout: look-ups along the path only) -/
+
+/-- the entry at `d` (`[]` = the tree root) is a scheduled named directory whose content is scanned -/
+def startsAt (c : Cfg) (pre : Pre) (f : Forest) (d : Path) : Bool :=
+  match d with
+  | [] => rootMode c == .walk
+  | _ :: _ =>
+    match f.get d with
+    | some (i, k) => sched c pre.ud d i && !namedTreeRef c pre d i k && opens c d i k
+    | none => false
+
+/-- a scan of the parent of `e` goes on into `e`: it is listed (not in the
+control directory, not ignored — bzr: unless versioned or on a named path) and
+its content is scanned (a real directory, not a nested tree, bzr: not skipped
+by the action, not a conflict helper) -/
+def passesAt (c : Cfg) (f : Forest) (e : Path) : Bool :=
+  match f.get e with
+  | some (i, k) => listed c e i (i.versioned || onPath c e i) && opens c e i k
+  | none => false
+
+/-- the listing that contains `q` is scanned: some proper prefix `q.take n` of
+`q` is a scheduled, scanned named directory (or the named root) and the scan
+passes through every entry strictly between it and `q` -/
+def reached (c : Cfg) (pre : Pre) (f : Forest) (q : Path) : Bool :=
+  (List.range q.length).any fun n =>
+    startsAt c pre f (q.take n) &&
+      (List.range q.length).all fun j => !(decide (n < j)) || passesAt c f (q.take j)
+
+/-- a listed entry that the walk versions: not in the control directory, not
+ignored, (bzr) not skipped by the action, not a conflict helper, (bzr) not a
+nested tree / (git) not a directory -/
+def eligible (c : Cfg) (q : Path) (i : Info) (k : Forest) : Bool :=
+  match c.fmt with
+  | .bzr => !(q.head? == some ".bzr") && !i.ignored && !c.skip.contains q && !i.helper && !isNestedTree i k
+  | .git => !(q.head? == some ".git") && !i.ignored && !(c.gitSkips && c.skip.contains q) && !i.helper && i.kind != .dir
 
 /-- forget the versioned flags (everything else a layout consists of) -/
 def clearV : Forest → Forest
   | .nil => .nil
   | .cons i kids rest => .cons { i with versioned := false } (clearV kids) (clearV rest)
+
+/-- forget the flags of directory entries (git: "some index entry lies below it" — derived, not stored) -/
+def eraseDirI (i : Info) : Info := if i.kind == .dir then { i with versioned := false } else i
+
+def eraseDirV : Forest → Forest
+  | .nil => .nil
+  | .cons i kids rest => .cons (eraseDirI i) (eraseDirV kids) (eraseDirV rest)
 
 end BreezyVerif.C11
